@@ -5,7 +5,9 @@
     CreateShapesForTimeBucketInfo     utils/io/metadata.go:116   create_shapes
     NewTimeBucketInfo                 metadata.go:91             new_tbi
     Header (struct layout)            metadata.go:354            the field order of encode_header / read_header
-    Header.Load + WriteHeader         metadata.go:373-400        encode_header   (copy() into [256]byte / [32]byte = [fit])
+    TimeBucketInfo.CheckStorable      metadata.go:120            check_storable  (fixes d005c52, e807cb3 in /repo)
+    catalog.AddTimeBucket (the check) catalog/catalog.go:163     create
+    Header.Load + WriteHeader         metadata.go:392-419        encode_header   (copy() into [256]byte / [32]byte = [fit])
     readHeader + load                 metadata.go:269-344        read_header     (bytes.Trim(.., "\x00") = [trim])
     IndexToOffset                     timeindex.go:54            IndexToOffset   (GENERATED)
     WriteBufferToFile                 executor/writer.go:149     apply_write (WFixed): WriteAt(index ++ payload, offset)
@@ -140,9 +142,22 @@ Definition apply_writes (reclen : Z) (h : list byte) (ws : list wop) : list byte
 
 Definition wop_idx (w : wop) : Z := match w with WFixed i _ => i | WVar i _ => i end.
 
+(** TimeBucketInfo.CheckStorable: at most maxNumElements names, each at most elementNameHeaderBytes long
+    and neither starting nor ending with a NUL byte *)
+Definition head_nonzero (l : list byte) : bool :=
+  match l with [] => true | b :: _ => negb (Byte.eqb b x00) end.
+Definition name_storable (s : list byte) : bool :=
+  (length s <=? NAMEB)%nat && head_nonzero s && head_nonzero (rev s).
+Definition check_storable (f : tbi) : bool :=
+  (Z.of_nat (length (t_names f)) <=? maxNumElements)%Z && forallb name_storable (t_names f).
+
+(** catalog.AddTimeBucket: the schema check, then the year file with its header *)
+Definition create (f : tbi) : Res (list byte) :=
+  if check_storable f then encode_header f else Rejected.
+
 (** create the year file, apply the writes, restart and read the header back *)
 Definition create_write_reload (f : tbi) (ws : list wop) : Res tbi :=
-  do h <- encode_header f; read_header (apply_writes (t_reclen f) h ws).
+  do h <- create f; read_header (apply_writes (t_reclen f) h ws).
 
 (** * guards *)
 (** a name / description survives copy-into-fixed-array + Trim *)
@@ -162,6 +177,12 @@ Definition creatable (tf : Z) (descr : list byte) (year : Z) (dsv : list (list b
   field_ok DESC descr && in_ityb I16 year && in_ityb I64 tf && in_ityb I8 rt
   && (Z.of_nat (length sh) <=? maxNumElements)%Z
   && forallb (fun s => field_ok NAMEB (fst s) && (0 <=? snd s)%Z && (snd s <? 256)%Z) sh.
+
+(** what NewTimeBucketInfo may be given at all (the property's domain): description storable, year /
+    timeframe / record type in their Go ranges, element types bytes; names and column count are free *)
+Definition schema_dom (tf : Z) (descr : list byte) (year : Z) (dsv : list (list byte * Z)) (rt : Z) : bool :=
+  field_ok DESC descr && in_ityb I16 year && in_ityb I64 tf && in_ityb I8 rt
+  && forallb (fun s => (0 <=? snd s)%Z && (snd s <? 256)%Z) dsv.
 
 (** no write at index 0 (the daily Jan-1 slot); indices bounded so that the int64 offset cannot wrap *)
 Definition writes_ok (ws : list wop) : bool :=
